@@ -8,8 +8,13 @@
      ARead / AWrite    the two halves of `x = append(x, item)`: read-modify-write of an accumulator
      SlotWrite         x[i] = v into a pre-allocated slot owned by the goroutine (no conflict)
      Send / Close      unbuffered channel send (needs a receiver) / close
-     RecvLoop          a live subscriber: receives whatever is sent until the channel is closed
-     Call / Spawn      opaque step (collaborator assumed thread-safe / goroutine start)
+     RecvLoop          a live subscriber / `for x := range ch`: receives whatever is sent until the channel is closed
+     Recv              one `<-ch`: rendezvous with one Send (or returns at once when the channel is closed)
+     WgAddN / WgAdd1   sync.WaitGroup.Add: by the spawning function (one per WgDone of the scenario) / by the goroutine
+                       itself (one); WgDone; WgWait blocks until the counter is zero
+     Call / Spawn      opaque step (collaborator assumed thread-safe) / goroutine start: releases the programs that
+                       begin with <<"Start", same name>> (a child without Start runs from the beginning: scenarios
+                       made of children only)
 
    Go semantics of sync.RWMutex: Lock first announces itself, from then on NEW RLock calls block (also
    re-entrant ones) until the writer has acquired and released; the writer acquires once the readers that
@@ -25,8 +30,10 @@ VARIABLES pc,      \* pc[p]: index of the next operation of process p
           wwait,   \* wwait[m]: writers that announced themselves and wait for the readers to leave
           val,     \* val[v]: contributions <<p, i>> present in accumulator v
           tmp,     \* tmp[p]: value of the accumulator read by the last ARead of p
-          closed   \* closed channels
-vars == <<pc, rcount, writer, wwait, val, tmp, closed>>
+          closed,  \* closed channels
+          wg,      \* wg[m]: counter of sync.WaitGroup m
+          started  \* names of the goroutine bodies whose `go` statement has been executed
+vars == <<pc, rcount, writer, wwait, val, tmp, closed, wg, started>>
 
 Procs == DOMAIN Prog
 Objs == UNION {{Prog[p][i][2] : i \in 1..Len(Prog[p])} : p \in Procs}
@@ -38,11 +45,16 @@ Init == /\ pc = [p \in Procs |-> 1]
         /\ val = [v \in Objs |-> {}]
         /\ tmp = [p \in Procs |-> {}]
         /\ closed = {}
+        /\ wg = [m \in Objs |-> 0]
+        /\ started = {}
 
 Running(p) == pc[p] <= Len(Prog[p])
 Cur(p) == Prog[p][pc[p]]
 Readers(m) == {p \in Procs : rcount[m][p] > 0}
 AtRecv(q, ch) == Running(q) /\ Cur(q) = <<"RecvLoop", ch>>
+AtRecvOne(q, ch) == Running(q) /\ Cur(q) = <<"Recv", ch>>
+\* number of WgDone operations on wait group m in the whole scenario: what a correct spawning function adds
+NDone(m) == Cardinality(UNION {{<<p, i>> : i \in {j \in 1..Len(Prog[p]) : Prog[p][j] = <<"WgDone", m>>}} : p \in Procs})
 
 \* enabling condition of the next operation of p (explicit, so that deadlock freedom is a state predicate)
 CanStep(p) ==
@@ -50,8 +62,11 @@ CanStep(p) ==
   /\ LET op == Cur(p)[1]  m == Cur(p)[2] IN
      CASE op = "RLock"    -> writer[m] = 0 /\ wwait[m] = {}
        [] op = "Lock"     -> p \notin wwait[m] \/ (writer[m] = 0 /\ Readers(m) = {})
-       [] op = "Send"     -> m \in closed \/ \E q \in Procs : AtRecv(q, m)
+       [] op = "Send"     -> m \in closed \/ \E q \in Procs : AtRecv(q, m) \/ (q # p /\ AtRecvOne(q, m))
        [] op = "RecvLoop" -> m \in closed
+       [] op = "Recv"     -> m \in closed      \* otherwise it moves together with a sender (the sender's step)
+       [] op = "WgWait"   -> wg[m] = 0
+       [] op = "Start"    -> m \in started
        [] OTHER           -> TRUE
 
 Step(p) ==
@@ -59,31 +74,44 @@ Step(p) ==
   /\ LET op == Cur(p)[1]  m == Cur(p)[2]  adv == [pc EXCEPT ![p] = @ + 1] IN
      CASE op = "RLock" ->
             /\ rcount' = [rcount EXCEPT ![m][p] = @ + 1]
-            /\ pc' = adv /\ UNCHANGED <<writer, wwait, val, tmp, closed>>
+            /\ pc' = adv /\ UNCHANGED <<writer, wwait, val, tmp, closed, wg, started>>
        [] op = "RUnlock" ->
             /\ rcount' = [rcount EXCEPT ![m][p] = IF @ > 0 THEN @ - 1 ELSE 0]
-            /\ pc' = adv /\ UNCHANGED <<writer, wwait, val, tmp, closed>>
+            /\ pc' = adv /\ UNCHANGED <<writer, wwait, val, tmp, closed, wg, started>>
        [] op = "Lock" ->
             IF p \notin wwait[m]
             THEN /\ wwait' = [wwait EXCEPT ![m] = @ \cup {p}]            \* announce: new readers block from now on
-                 /\ UNCHANGED <<pc, rcount, writer, val, tmp, closed>>
+                 /\ UNCHANGED <<pc, rcount, writer, val, tmp, closed, wg, started>>
             ELSE /\ writer' = [writer EXCEPT ![m] = p]
                  /\ wwait' = [wwait EXCEPT ![m] = @ \ {p}]
-                 /\ pc' = adv /\ UNCHANGED <<rcount, val, tmp, closed>>
+                 /\ pc' = adv /\ UNCHANGED <<rcount, val, tmp, closed, wg, started>>
        [] op = "Unlock" ->
             /\ writer' = [writer EXCEPT ![m] = 0]
-            /\ pc' = adv /\ UNCHANGED <<rcount, wwait, val, tmp, closed>>
+            /\ pc' = adv /\ UNCHANGED <<rcount, wwait, val, tmp, closed, wg, started>>
        [] op = "ARead" ->
             /\ tmp' = [tmp EXCEPT ![p] = val[m]]
-            /\ pc' = adv /\ UNCHANGED <<rcount, writer, wwait, val, closed>>
+            /\ pc' = adv /\ UNCHANGED <<rcount, writer, wwait, val, closed, wg, started>>
        [] op = "AWrite" ->
             /\ val' = [val EXCEPT ![m] = tmp[p] \cup {<<p, pc[p]>>}]
-            /\ pc' = adv /\ UNCHANGED <<rcount, writer, wwait, tmp, closed>>
+            /\ pc' = adv /\ UNCHANGED <<rcount, writer, wwait, tmp, closed, wg, started>>
        [] op = "Close" ->
             /\ closed' = closed \cup {m}
-            /\ pc' = adv /\ UNCHANGED <<rcount, writer, wwait, val, tmp>>
-       [] OTHER ->   \* Read, Write, SlotWrite, Call, Spawn, Send (rendezvous with a live receiver), RecvLoop (channel closed)
-            /\ pc' = adv /\ UNCHANGED <<rcount, writer, wwait, val, tmp, closed>>
+            /\ pc' = adv /\ UNCHANGED <<rcount, writer, wwait, val, tmp, wg, started>>
+       [] op = "Send" ->
+            \* rendezvous: with a live receive loop (which stays where it is), with one `<-ch` (which moves on
+            \* together with the sender), or - on a closed channel - the panic the lockset rule reports as Send/Close race
+            /\ \/ /\ (m \in closed \/ \E q \in Procs : AtRecv(q, m))
+                  /\ pc' = adv
+               \/ \E q \in Procs \ {p} : AtRecvOne(q, m) /\ pc' = [pc EXCEPT ![p] = @ + 1, ![q] = @ + 1]
+            /\ UNCHANGED <<rcount, writer, wwait, val, tmp, closed, wg, started>>
+       [] op \in {"WgAddN", "WgAdd1", "WgDone"} ->
+            /\ wg' = [wg EXCEPT ![m] = @ + (CASE op = "WgAddN" -> NDone(m) [] op = "WgAdd1" -> 1 [] OTHER -> -1)]
+            /\ pc' = adv /\ UNCHANGED <<rcount, writer, wwait, val, tmp, closed, started>>
+       [] op = "Spawn" ->
+            /\ started' = started \cup {m}
+            /\ pc' = adv /\ UNCHANGED <<rcount, writer, wwait, val, tmp, closed, wg>>
+       [] OTHER ->   \* Read, Write, SlotWrite, Call, Start, RecvLoop / Recv (channel closed), WgWait (counter zero)
+            /\ pc' = adv /\ UNCHANGED <<rcount, writer, wwait, val, tmp, closed, wg, started>>
 
 Next == \E p \in Procs : Step(p)
 Spec == Init /\ [][Next]_vars
@@ -132,4 +160,16 @@ P2 == << <<<<"RLock", "mu">>, <<"Read", "x">>, <<"RUnlock", "mu">>>>,
 P3 == << <<<<"ARead", "acc">>, <<"AWrite", "acc">>>>, <<<<"ARead", "acc">>, <<"AWrite", "acc">>>> >>
 P4 == << <<<<"Lock", "mu">>, <<"ARead", "acc">>, <<"AWrite", "acc">>, <<"Unlock", "mu">>>>,
          <<<<"Lock", "mu">>, <<"ARead", "acc">>, <<"AWrite", "acc">>, <<"Unlock", "mu">>>> >>
+\* P5 fan-out with a result channel: the spawning function registers its children with the wait group, collects with
+\* `for range ch`; a closer goroutine waits and closes (passes everything).  P6 the same with wg.Add(1) moved into the
+\* children: the closer may pass Wait before a child has registered, close the channel and the child sends on a closed
+\* channel (NoRace: Send against Close).  P7 one `<-ch` per child but one child never sends: the collector is stuck.
+P5 == << <<<<"WgAddN", "wg">>, <<"Spawn", "c">>, <<"Spawn", "d">>, <<"RecvLoop", "ch">>>>,
+         <<<<"Start", "c">>, <<"Send", "ch">>, <<"WgDone", "wg">>>>, <<<<"Start", "c">>, <<"Send", "ch">>, <<"WgDone", "wg">>>>,
+         <<<<"Start", "d">>, <<"WgWait", "wg">>, <<"Close", "ch">>>> >>
+P6 == << <<<<"Spawn", "c">>, <<"Spawn", "d">>, <<"RecvLoop", "ch">>>>,
+         <<<<"Start", "c">>, <<"WgAdd1", "wg">>, <<"Send", "ch">>, <<"WgDone", "wg">>>>,
+         <<<<"Start", "c">>, <<"WgAdd1", "wg">>, <<"Send", "ch">>, <<"WgDone", "wg">>>>,
+         <<<<"Start", "d">>, <<"WgWait", "wg">>, <<"Close", "ch">>>> >>
+P7 == << <<<<"Recv", "ch">>, <<"Recv", "ch">>>>, <<<<"Send", "ch">>>>, <<<<"Call", "notfound">>>> >>
 =============================================================================
